@@ -8,8 +8,9 @@ def filter_mux(predicate):
             def on_next(i):
                 if type(i) is rs.OnNextMux:
                     try:
-                        emit = predicate(i.item)
-                        if emit is True:
+                        # same test than on an Observable: any true value
+                        # (e.g. a numpy.bool_) keeps the item
+                        if predicate(i.item):
                             observer.on_next(i)
                     except Exception as e:
                         observer.on_next(rs.OnErrorMux(i.key, e, i.store))
